@@ -371,8 +371,9 @@ class StringCodec(Codec):
             raise EncodeError("String codec only supports strings")
         if subtypes != ():
             raise EncodeError("string should have no subtypes")
-        Uint64Codec.encode(out, len(val))
-        out.write(val.encode())
+        encoded = val.encode("utf-8")
+        Uint64Codec.encode(out, len(encoded))
+        out.write(encoded)
 
 
 class BoolCodec(Codec):
